@@ -255,7 +255,31 @@ pub fn generate(seed: u64, tier: &str, sink: &mut Sink) {
                     return Err(("connected-to-non-accepting".into(), format!("{:?}: winner {}", spec, w)));
                 }
             }
-            if !any_accept && generous && !(obs.line.starts_with("err:refused") || obs.line.starts_with("err:timedout") || obs.line.starts_with("err:nodns")) {
+            // the order of attempts: alternate IPv6 / IPv4, IPv6 first, resolver order within a family; as
+            // long as no black hole is tried before it, the first accepting address in that order must win
+            let mut order: Vec<usize> = vec![];
+            {
+                let v6: Vec<usize> = (0..cfg.addrs.len()).filter(|i| cfg.addrs[*i].0).collect();
+                let v4: Vec<usize> = (0..cfg.addrs.len()).filter(|i| !cfg.addrs[*i].0).collect();
+                let (mut a, mut b) = (v6.into_iter(), v4.into_iter());
+                loop {
+                    match (a.next(), b.next()) {
+                        (None, None) => break,
+                        (x, y) => {
+                            order.extend(x);
+                            order.extend(y);
+                        }
+                    }
+                }
+            }
+            if generous && cfg.addrs.len() > 1 {
+                if let Some(pos) = order.iter().position(|i| cfg.addrs[*i].1 == 'a') {
+                    if order[..pos].iter().all(|i| cfg.addrs[*i].1 == 'r') && obs.winner != Some(order[pos]) {
+                        return Err(("wrong-order".into(), format!("{:?}: winner {:?}, the first accepting address in race order is #{}", spec, obs.winner, order[pos])));
+                    }
+                }
+            }
+            if !any_accept && generous && !(obs.line.starts_with("err:refused") || obs.line.starts_with("err:timedout") || (cfg.addrs.is_empty() && obs.line.starts_with("err:nodns"))) {
                 return Err(("error-not-from-an-attempt".into(), format!("{:?}: {}", spec, obs.line)));
             }
             // an unresponsive predecessor costs about one race interval each, not a connect timeout
